@@ -136,6 +136,16 @@ static inline double cmb_random(void)
 }
 
 /**
+ * @brief Continuous uniform distribution on the open interval (0, 1), the
+ *        midpoints of 2^52 equal cells. For inversion formulas that have a
+ *        pole at zero or one.
+ */
+static inline double cmi_random_open(void)
+{
+    return ldexp((double)(cmb_random_sfc64() >> 12) + 0.5, -52);
+}
+
+/**
  * @brief Continuous uniform distribution on the interval `[min, max]`.
  *
  * Often used in lack of any other information about a distribution than
@@ -246,7 +256,7 @@ static inline double cmb_random_lognormal(const double m, const double s)
 static inline double cmb_random_logistic(const double m, const double s)
 {
     cmb_assert_release(s > 0.0);
-    const double x = cmb_random();
+    const double x = cmi_random_open();
 
     return m + s * log(x / (1.0 - x));
 }
@@ -565,7 +575,7 @@ static inline double cmb_random_pareto(const double shape, const double mode)
     cmb_assert_release(shape > 0.0);
     cmb_assert_release(mode > 0.0);
 
-    const double x = mode / pow(cmb_random(), 1.0 / shape);
+    const double x = mode / pow(cmi_random_open(), 1.0 / shape);
 
     cmb_assert_debug(x >= mode);
     return x;
